@@ -37,6 +37,7 @@ ALLOWED = (str, int, bytes, datetime.timedelta, ipaddress.IPv4Address, type(None
 
 T = (1, 3, 5)  # table OID; entry = T.1; columns 1,2 ; rows 1, 2
 ENTRY = T + (1,)
+T2 = (1, 3, 6)
 
 
 def build_db(value):
@@ -50,6 +51,12 @@ def build_db(value):
         ENTRY + (1, 2): value,
         ENTRY + (2, 1): value,
         ENTRY + (2, 2): ("str", b"y"),
+        # a sparse table: row 1 lacks column 1, row 2 (the first one a
+        # column-wise walk meets) lacks column 2, row 3 has both
+        T2 + (1, 1, 2): value,
+        T2 + (1, 1, 3): ("int", 13),
+        T2 + (1, 2, 1): ("str", b"r1c2"),
+        T2 + (1, 2, 3): value,
         (1, 3, 9, 1, 0): value,
     }
 
@@ -73,6 +80,8 @@ def method_ops(value):
         ("bulkget-listing-at-end-of-view", ("bulkget", [(1, 3, 1, 1)], [(1, 3, 9, 1, 0)], 2)),
         ("bulkget-max0", ("bulkget", [(1, 3, 1, 1)], [(1, 3, 1)], 0)),
         ("table", ("table", ENTRY)),
+        ("table-sparse", ("table", T2 + (1,))),
+        ("bulktable-sparse", ("bulktable", T2, 2)),
         ("bulktable", ("bulktable", T, 2)),
     ]
     if value[0] not in MARKERS:
